@@ -36,8 +36,9 @@ MATS = {
     '5I': (5 * np.eye(3, dtype=int)).tolist(),
 }
 CALCS_Q = [('I', 'FCC_OT', 0), ('I', 'FCC_OT', 1), ('I', 'FCC_OT', 2), ('I', 'HCP_OT', 0), ('I', 'HCP_OT', 1), ('I', 'BCC_O', 0),
-           ('V', 'FCC', 0), ('V', 'BCC', 0), ('V', 'HCP', 0), ('V', 'B2', 0)]
-CALCS_T = CALCS_Q + [('V', 'FCC', 1), ('V', 'BCC', 1), ('V', 'B2', 1), ('V', 'HCP15', 0), ('V', 'B2AB', 0), ('I', 'FCC_O', 1), ('I', 'BCC_T', 0)]
+           ('V', 'FCC', 0), ('V', 'BCC', 0), ('V', 'HCP', 0), ('V', 'B2', 0),
+           ('I', 'OT_FCC', 1), ('I', 'B2AB_O', 0), ('I', 'B2AOB', 0), ('V', 'B2AB', 0)]
+CALCS_T = CALCS_Q + [('V', 'FCC', 1), ('V', 'BCC', 1), ('V', 'B2', 1), ('V', 'HCP15', 0), ('I', 'FCC_O', 1), ('I', 'BCC_T', 0)]
 ROTS = {'quick': (0, 1, 2), 'thorough': (0, 1, 2, 3)}   # representative choices for Interstitial calculators (VacancyMediated: as given)
 ROTCAP = {'quick': 40, 'thorough': 130}               # rot > 0 only on cells with at most this many sites
 MATS_Q = ['1I', '2I', '3I', '4I', 'd2hnf', 'cub2']
